@@ -270,6 +270,7 @@ extern "C" int SSL_get_error(const SSL *ssl, int ret)
   return real_SSL_get_error()(ssl, ret);
 }
 
+static int g_movedRetries = 0;
 static const void *g_sslPendBuf = nullptr;   // a forwarded (possibly shortened) SSL_write hit a real WANT_*: OpenSSL wants the same call again
 static int g_sslPendK = 0;
 
@@ -285,7 +286,7 @@ extern "C" int SSL_write(SSL *ssl, const void *buf, int num)
   if (g_sslPendK > 0)
   {
     // retry of a call OpenSSL has already started: same buffer, same length, no new fault
-    if (buf != g_sslPendBuf || num < g_sslPendK) cnt("SSL_write_retry_moved_buffer");
+    if (buf != g_sslPendBuf || num < g_sslPendK) { cnt("SSL_write_retry_moved_buffer"); g_movedRetries++; }
     int k = std::min(num, g_sslPendK);
     r = real(ssl, buf, k);
     if (r > 0) { g_sslPendK = 0; g_sslPendBuf = nullptr; }
@@ -559,7 +560,8 @@ struct Case
   std::size_t peerChunk = 65536;
   long peerDelayUs = 0, peerStartUs = 0;
   long long peerCloseAfter = -1;   // peer closes its end after having read this many bytes
-  bool expectEarlyEnd = false;     // the schedule contains something that legitimately ends the session early
+  bool expectEarlyEnd = false;     // the schedule contains something that may legitimately end the session early
+  bool lossy = false;              // drop-oldest backpressure policy with a small queue: bytes may be dropped by design
 };
 
 static std::vector<std::string> splitc(const std::string &s, char c)
@@ -611,6 +613,7 @@ static bool parseCase(const std::vector<std::string> &t, Case &c)
     else if (k == "hsdelay") { if (!nat()) return false; c.hsDelayUs = static_cast<long>(n); }
     else if (k == "pclose") { if (v == "-") c.peerCloseAfter = -1; else { if (!nat()) return false; c.peerCloseAfter = static_cast<long long>(n); } }
     else if (k == "expectend") { if (!nat()) return false; c.expectEarlyEnd = n; }
+    else if (k == "lossy") { if (!nat()) return false; c.lossy = n; }
     else if (k == "peer")
     {
       auto p = splitc(v, '.');
@@ -802,7 +805,7 @@ static void runCase(const Case &c, SSL_CTX *peerCli, SSL_CTX *peerSrv)
   g_segs.clear(); g_cur.clear(); g_acc.clear();
   g_ioThreadKnown = false; g_foreignThread.store(false);
   g_sessFd.store(-1); g_sessDead.store(false); g_lastMask = 0; g_registered = false;
-  g_waitIdx = 0; g_sslPendK = 0; g_sslPendBuf = nullptr;
+  g_waitIdx = 0; g_sslPendK = 0; g_sslPendBuf = nullptr; g_movedRetries = 0;
   g_peerRx.store(0); g_peerWritten.store(0); g_peerDone.store(false); g_peerAbort.store(false); g_peerWritesDone.store(false);
 
   TransportConfig cfg;
@@ -953,15 +956,29 @@ static void runCase(const Case &c, SSL_CTX *peerCli, SSL_CTX *peerSrv)
   std::size_t pwTotal = 0;
   for (auto &w : c.pw) pwTotal += w.len;
 
-  // wait until everything has arrived (or the session ended)
+  // wait until everything has arrived (or the session ended); with the drop-oldest policy bytes may be dropped by design,
+  // so there the wait ends when nothing has moved for a while
+  std::size_t lastRx = 0;
+  auto lastMove = Clock::now();
   bool all = waitFor([&]
   {
     if (closedCb.load() > 0 || g_peerDone.load()) return true;
-    return g_peerRx.load() >= expect.size() && g_peerWritesDone.load() && deliveredN.load() >= g_peerWritten.load();
+    if (g_peerRx.load() >= expect.size() && g_peerWritesDone.load() && deliveredN.load() >= g_peerWritten.load()) return true;
+    if (c.lossy)
+    {
+      std::size_t rx = g_peerRx.load() + deliveredN.load();
+      if (rx != lastRx) { lastRx = rx; lastMove = Clock::now(); }
+      else if (Clock::now() - lastMove > milliseconds(150)) return true;
+    }
+    return false;
   });
   if (!all) stall = true;
-  // let a peer-initiated close or an injected error propagate before stopping
-  if (c.expectEarlyEnd) waitFor([&] { return closedCb.load() > 0; });
+  // a peer-initiated close: give the engine a moment to notice it before stop() (either order is legal)
+  if (g_peerDone.load() && closedCb.load() == 0)
+  {
+    auto d2 = Clock::now() + milliseconds(50);
+    while (closedCb.load() == 0 && Clock::now() < d2) sleepUs(200);
+  }
   {
     std::lock_guard<std::mutex> g(g_accMx);
     g_acc.push_back("Q");
@@ -990,10 +1007,10 @@ static void runCase(const Case &c, SSL_CTX *peerCli, SSL_CTX *peerSrv)
   std::printf("begin %s\n%s\n", c.id.c_str(), accLine.c_str());
   for (auto &s : g_segs) std::printf("seg %s\n", s.c_str());
   std::printf("fin peer_rx=%zu exp_total=%zu peer_diff=%lld peer_eof=%d dlv=%zu pw_written=%zu pw_total=%zu dlv_diff=%lld closed_cb=%d close_why=%s "
-              "connected_cb=%d accepted_cb=%d stall=%d foreign=%d peer_hs=%d note=%s\n",
+              "connected_cb=%d accepted_cb=%d stall=%d foreign=%d peer_hs=%d moved=%d note=%s\n",
               pr.rx.size(), expect.size(), firstDiff(pr.rx, expect), pr.eof, delivered.size(), pr.written, pwTotal,
               firstDiff(delivered, pwAll), closedCb.load(), closeWhy.c_str(), connectedCb.load(), acceptedCb.load(), stall ? 1 : 0,
-              g_foreignThread.load() ? 1 : 0, pr.hsOk ? 1 : 0, pr.note.empty() ? "-" : pr.note.c_str());
+              g_foreignThread.load() ? 1 : 0, pr.hsOk ? 1 : 0, g_movedRetries, pr.note.empty() ? "-" : pr.note.c_str());
   std::printf("end %s\n", c.id.c_str());
   std::fflush(stdout);
 }
